@@ -5,3 +5,8 @@
 pub mod jstr;
 pub mod opcodes;
 pub mod raw;
+pub mod corpus;
+pub mod dbg;
+pub mod facts;
+pub mod facts_raw;
+pub mod facts_duke;
